@@ -96,6 +96,8 @@ func (p *c12IPoE) create(n c12New, v4, v6 net.IP, pd *net.IPNet, t0 time.Time, s
 	}
 	if n.bound {
 		s.State = "bound"
+	} else if n.rel4 {
+		s.State = "released" // DHCPv4 lease released, session kept for DHCPv6 (handleRelease, unified mode)
 	}
 	c := p.c
 	c.sessions.Store(c.makeSessionKeyV4(s.MAC, s.OuterVLAN, s.InnerVLAN), s)
@@ -120,10 +122,13 @@ func (p *c12IPoE) release(i int) {
 	p.c.handleSubscriberTerminate(events.Event{Data: &events.SubscriberTerminateEvent{SessionID: c12SessID(i), Reason: "c12"}})
 }
 
-func c12Flags(bound, approved, created, v6b bool) string {
+func c12Flags(bound, rel4, approved, created, v6b bool) string {
 	s := ""
 	if bound {
 		s += "b"
+	}
+	if rel4 {
+		s += "r"
 	}
 	if approved {
 		s += "a"
@@ -148,7 +153,7 @@ func (p *c12IPoE) show(s *SessionState, kpd int) string {
 		id = "IDENTITY"
 	}
 	return fmt.Sprintf("%d:%s:%d:%s:%s:%s:%s:%s", i, strings.TrimPrefix(s.Hostname, "t"), s.IPoESwIfIndex,
-		c12Flags(s.State == "bound", s.AAAApproved, s.IPoESessionCreated, s.IPv6Bound),
+		c12Flags(s.State == "bound", s.State == "released", s.AAAApproved, s.IPoESessionCreated, s.IPv6Bound),
 		c12V4Idx(s.IPv4), c12V6Idx(s.IPv6Address), c12PDIdx(s.IPv6Prefix, kpd), id)
 }
 
